@@ -909,21 +909,23 @@ def _run_case(case, sess, guards=frozenset()):
         targets = [t for t in mj.valid if t.dests]
         for t in targets:
             if isinstance(t, MGrp):
-                for m in t.members.values():
-                    for d in t.dests:
+                for d in t.dests:
+                    roots = None
+                    for m in t.members.values():
                         dm = d + '.' + m.mname
                         L = expected_local(m, None)
-                        hit = [(Lp, Rp) for Lp, Rp in mj.outputs if Rp == dm]
-                        if not hit or (L is not None and all(Lp != L for Lp, _ in hit)):
+                        suffix = '.' + m.mname + m.ext
+                        hit = [Lp for Lp, Rp in mj.outputs if Rp == dm and
+                               (Lp == L if L is not None else posixpath.basename(Lp) == m.fname())]
+                        if not hit:
                             fail('external-output-missing', 'external outputs are uploaded by the producer to dest',
-                                 f'{m.label()} -> {dm}: output_files {mj.outputs}')
-                        elif L is None:
-                            suffix = '.' + m.mname + m.ext
-                            if not hit[0][0].endswith(suffix):
-                                fail('group-root', 'resource-group members share the group root', f'{m.label()}: {hit[0][0]}')
-                            elif t.__dict__.setdefault('G2', hit[0][0][:-len(suffix)]) != hit[0][0][:-len(suffix)]:
-                                fail('group-root', 'resource-group members share the group root',
-                                     f'{t.label()}: members uploaded from different roots {mj.outputs}')
+                                 f'{m.label()} ({L}) -> {dm}: output_files {mj.outputs}')
+                            continue
+                        rs = {Lp[:-len(suffix)] for Lp in hit}
+                        roots = rs if roots is None else roots & rs
+                    if roots is not None and not roots:
+                        fail('group-root', 'resource-group members share the group root',
+                             f'{t.label()} -> {d}: members uploaded from different roots: {mj.outputs}')
             else:
                 L = expected_local(t, None)
                 for d in t.dests:
